@@ -25,7 +25,7 @@ for pid, fam in [("C01","string and generic key"),("C09","list"),("C10","hash"),
                  "plain and blocking poppers, over TCP and in-process with the stripe-lock hook pausing before exclusive acquisitions: every acknowledged element is popped exactly once or left in the list.")
     chk(pid, SEQ_TEXT.format(fam=fam) + extra, SEQ_NOTE, SEQ_TECH)
 chk("C17", "Bounded-exhaustive enumeration of every (pattern, key) pair in a length/alphabet box through the real util.PattenMatch under recover, compared with a "
-    "three-valued reference matcher; seeded random long pairs for termination; KEYS on a populated in-process server including expired keys.",
+    "three-valued reference matcher (a range written with the larger bound first is bracketed between its narrowest and widest reading), plus a family of class ranges both ways round over a wider alphabet; seeded random long pairs for termination; KEYS on a populated in-process server that also holds keys past their deadline which nothing has reaped yet (watchdog).",
     "Exhaustive only inside the stated box; pairs hinging on constructs the documented grammar leaves undefined only have to terminate without panic.",
     "bounded-exhaustive runtime enumeration with a reference-matcher oracle")
 EXTRA = {}
